@@ -254,12 +254,12 @@ DIR_RE = re.compile(r"^\s*//@\s*(\S+)\s*(.*)$")
 def split_target(arg):
     """'src/x.rs :: impl A for B :: f  props: C01 ret: r' -> (file, parts, opts)"""
     opts = {}
-    m = re.search(r"\s+(props|ret|keep|retarget|derive|flags|iter|nth|drop|as):", arg)
+    m = re.search(r"\s+(props|ret|keep|retarget|derive|flags|iter|nth|drop|as|subst):", arg)
     optstr = ""
     if m:
         optstr = arg[m.start():]
         arg = arg[:m.start()]
-    for om in re.finditer(r"(props|ret|keep|retarget|derive|flags|iter|nth|drop|as):\s*(.*?)(?=\s+(?:props|ret|keep|retarget|derive|flags|iter|nth|drop|as):|$)", optstr):
+    for om in re.finditer(r"(props|ret|keep|retarget|derive|flags|iter|nth|drop|as|subst):\s*(.*?)(?=\s+(?:props|ret|keep|retarget|derive|flags|iter|nth|drop|as|subst):|$)", optstr):
         opts[om.group(1)] = om.group(2).strip()
     parts = [p.strip() for p in arg.split("::")]
     # re-join '::' inside impl headers / paths is not supported: headers use single ':' rarely.
@@ -688,6 +688,21 @@ class Generator:
                 ed.insert(s[r0].start, "(%s: " % ret, 2)
                 ed.insert(s[r1 - 1].end, ")", 2)
                 rules["R6"] = 1
+        # R3b: associated-type names of a trait impl spelled out (`Self::Key` -> concrete type) when a
+        # trait method is verified as an inherent method (directive option `subst:`)
+        for pair in opts.get("subst", "").split(";"):
+            if "=" not in pair:
+                continue
+            a, b = [x.strip() for x in pair.split("=", 1)]
+            at = a.replace(" ", "").split("::")
+            q = it.kw
+            while q < it.body_open:
+                if all(q + 3 * k2 < it.body_open and s[q + 3 * k2].text == at[k2] for k2 in range(len(at))) \
+                        and all(src.is_p(q + 3 * k2 + 1, ":") and src.is_p(q + 3 * k2 + 2, ":") for k2 in range(len(at) - 1)):
+                    ed.replace(s[q].start, s[q + 3 * (len(at) - 1)].end, b, 4)
+                    rules["R3"] = rules.get("R3", 0) + 1
+                    q += 3 * (len(at) - 1)
+                q += 1
         # expected signature check
         want_sig = None
         for sec in sections:
